@@ -203,6 +203,10 @@ package message
 //@     invariant parsedAs(d, o, defs, k)
 //@     invariant forall j int :: {rawStart(d, j)} 0 <= j && j < k ==> parsedAs(d, o, defs, j) && parsedOpt(d, o, defs, j)
 //@     apply k < len(o) ==> VerifHeaderParse(d, encLen(o, k), delta(o, k), len(o[k].Value))
+//@     assert [s1] k < len(o) ==> rawLen(d, rawStart(d, k)) == len(o[k].Value) && rawValPos(d, k) == encLen(o, k) + 1 + hs(delta(o, k)) + hs(len(o[k].Value))
+//@     assert [s0] k < len(o) ==> rawNum(d, k + 1) == o[k].ID && o[k].ID != 0 && kept(defs, o[k].ID, len(o[k].Value))
+//@     assert [s2] k < len(o) ==> rawOK(d, k)
+//@     assert [s3] k < len(o) ==> keptRaw(d, defs, k)
 //@     assert [step] k < len(o) ==> parsedOpt(d, o, defs, k)
 //@     unfold rawStart(d, k), rawNum(d, k), nKept(d, defs, k), encLen(o, k), rawStart(d, k + 1), rawNum(d, k + 1), nKept(d, defs, k + 1), encLen(o, k + 1)
 //@     decreases len(o) - k
